@@ -896,7 +896,7 @@ func c08gen(r *rand.Rand, tier string, emit func(string)) {
 		if cont == "slice" {
 			C = 5
 		}
-		vals := []string{"-1", "0", "2", "3", "4", "5", "6", "127", "255", "9223372036854775807", "9223372036854775808", "18446744073709551615", "18446744073709551616"}
+		vals := []string{"-9223372036854775808", "-1", "0", "2", "3", "4", "5", "6", "127", "255", "9223372036854775807", "9223372036854775808", "18446744073709551615", "18446744073709551616"}
 		for _, k := range c08kindList {
 			for _, cv := range []string{"c", "v"} {
 				if k == "untyped" && cv == "v" {
@@ -929,6 +929,14 @@ func c08gen(r *rand.Rand, tier string, emit func(string)) {
 					}
 				}
 			}
+		}
+	}
+	// typed constant bounds that are not representable as int / negative
+	for _, cont := range c08contList {
+		for _, b := range []string{"uint64:c:18446744073709551615", "uint:c:9223372036854775808", "int64:c:-9223372036854775808", "uintptr:c:9223372036854775807", "int8:c:-1", "uint8:c:1"} {
+			emit(fmt.Sprintf("slc %s 2 2 %s - -", cont, b))
+			emit(fmt.Sprintf("slc %s 2 2 - %s -", cont, b))
+			emit(fmt.Sprintf("slc %s 2 2 int:v:0 int:v:1 %s", cont, b))
 		}
 	}
 	for i := 0; i < 450*mult; i++ {
